@@ -22,17 +22,17 @@ pub fn resources(asn: &str, v4: &str, v6: &str) -> ResourceSet {
 pub fn init_ta(env: &Env) -> Result<(), String> {
     let uris = api::admin::PublicationServerUris {
         rrdp_base_uri: uri::Https::from_str(
-            "https://localhost:3000/rrdp/"
+            "https://rpki.example.net/rrdp/"
         ).unwrap(),
-        rsync_jail: uri::Rsync::from_str("rsync://localhost/repo/").unwrap(),
+        rsync_jail: uri::Rsync::from_str("rsync://rpki.example.net/repo/").unwrap(),
     };
     env.krill.repo_manager().init(uris, &env.krill).map_err(|e| {
         format!("repo init: {e}")
     })?;
     let actor = env.krill.system_actor().clone();
     env.krill.ca_manager().ta_init_fully_embedded(
-        uri::Rsync::from_str("rsync://localhost/ta/ta.cer").unwrap(),
-        vec![uri::Https::from_str("https://localhost:3000/ta/ta.cer").unwrap()],
+        uri::Rsync::from_str("rsync://rpki.example.net/ta/ta.cer").unwrap(),
+        vec![uri::Https::from_str("https://rpki.example.net/ta/ta.cer").unwrap()],
         None, &actor, &env.slow,
     ).map_err(|e| format!("ta init: {e}"))
 }
